@@ -216,16 +216,21 @@ def run_loaders(case: dict) -> CaseInfo:
     WORK.mkdir(exist_ok=True)
     tmp = tempfile.mkdtemp(prefix="c19-", dir=WORK)
     modname = f"vcfg_{os.getpid()}_{next(_counter)}"
+
+    def via(name: str, load: Any) -> dict:
+        # the mapping form took these settings: a form that raises on them does not agree
+        try:
+            return snapshot(load())
+        except Exception as e:
+            raise Violation("loader_raised", f"{name}: {e!r} for {spec}", loader=name)
+
     try:
         with warnings.catch_warnings():
             warnings.simplefilter("ignore")
             ref = snapshot(Config.from_mapping(dict(mapping)))
-            results = {"kwargs": snapshot(Config.from_mapping(**mapping))}
-            results["mapping+kwargs"] = snapshot(
-                Config.from_mapping(
-                    dict(list(mapping.items())[::2]), **dict(list(mapping.items())[1::2])
-                )
-            )
+            results = {"kwargs": via("kwargs", lambda: Config.from_mapping(**mapping))}
+            results["mapping+kwargs"] = via("mapping+kwargs", lambda: Config.from_mapping(
+                dict(list(mapping.items())[::2]), **dict(list(mapping.items())[1::2])))
 
             class Obj:
                 pass
@@ -233,7 +238,7 @@ def run_loaders(case: dict) -> CaseInfo:
             o = Obj()
             for k, v in mapping.items():
                 setattr(o, k, v)
-            results["object"] = snapshot(Config.from_object(o))
+            results["object"] = via("object", lambda: Config.from_object(o))
 
             # settings classes: values as class attributes, partly inherited from a base class,
             # partly set on the instance (the usual shape of a "Settings" object)
@@ -243,16 +248,17 @@ def run_loaders(case: dict) -> CaseInfo:
             inst = Sub()
             for k, v in items[2::3]:
                 setattr(inst, k, v)
-            results["object(class attrs + inherited + instance)"] = snapshot(
-                Config.from_object(inst))
-            results["object(class attrs only)"] = snapshot(
-                Config.from_object(type("AllSettings", (), dict(items))()))
+            results["object(class attrs + inherited + instance)"] = via(
+                "object(class attrs + inherited + instance)", lambda: Config.from_object(inst))
+            results["object(class attrs only)"] = via(
+                "object(class attrs only)",
+                lambda: Config.from_object(type("AllSettings", (), dict(items))()))
 
             body = "".join(_pysrc(k, v) for k, v in spec.items())
             pyfile = os.path.join(tmp, "conf_file.py")
             with open(pyfile, "w", encoding="utf-8") as f:
                 f.write(body)
-            results["pyfile"] = snapshot(Config.from_pyfile(pyfile))
+            results["pyfile"] = via("pyfile", lambda: Config.from_pyfile(pyfile))
 
             with open(os.path.join(tmp, modname + ".py"), "w", encoding="utf-8") as f:
                 f.write(body)
@@ -262,11 +268,10 @@ def run_loaders(case: dict) -> CaseInfo:
             sys.path.insert(0, tmp)
             importlib.invalidate_caches()
             try:
-                results["module-name.instance"] = snapshot(
-                    Config.from_object(f"{modname}.instance")
-                )
+                results["module-name.instance"] = via(
+                    "module-name.instance", lambda: Config.from_object(f"{modname}.instance"))
                 # the module form sees Holder/instance as extra attributes: compare settings only
-                mod_snap = snapshot(Config.from_object(modname))
+                mod_snap = via("module-name", lambda: Config.from_object(modname))
                 for extra in ("inst:Holder", "inst:instance"):
                     mod_snap.pop(extra, None)
                 results["module-name"] = mod_snap
@@ -281,7 +286,7 @@ def run_loaders(case: dict) -> CaseInfo:
             with open(tfile, "w", encoding="utf-8") as f:
                 for k, v in no_none.items():
                     f.write(f"{k} = {_toml_val(v)}\n")
-            toml_snap = snapshot(Config.from_toml(tfile))
+            toml_snap = via("toml", lambda: Config.from_toml(tfile))
         for name, snap in results.items():
             d = _diff(ref, snap)
             if d:
